@@ -1,14 +1,14 @@
 CONSTANTS
   Ext <- AllExtensions
   Conv = "bundled"
-  Variants = FALSE
+  Variants = TRUE
   Syntax <- SyntaxAsExt
   Defects = FALSE
   Mode = "bfs"
-  Kernel = "ref"
-  MaxBlocks = 2
-  MaxItems = 3
-  MaxComps = 3
+  Kernel = "struct"
+  MaxBlocks = 4
+  MaxItems = 2
+  MaxComps = 2
 INIT Init
 NEXT Next
 INVARIANTS InvConsistent InvValidRefs InvValidity Emit
